@@ -384,3 +384,250 @@ def scenarios():
     out += [symenc('encrypt'), symenc('decrypt'), pkesk_encrypt('RSA'), pkesk_encrypt('ECDH'), pkesk_decrypt(), skesk_encrypt(), skesk_decrypt(),
             gen_random('gen_key'), gen_random('gen_iv')]
     return out
+
+
+# ---------------------------------------------------------------------------------------------------
+KEY = 'pgpy.pgp.PGPKey'
+MSG = 'pgpy.pgp.PGPMessage'
+
+
+def key_encrypt(supplied):
+    label = 'C03/PGPKey.encrypt[session key %s]' % ('supplied' if supplied else 'generated')
+
+    def gen(repo):
+        r = scn.Run(repo, KEY, 'encrypt', label)
+        ex, st = r.ex, r.st
+        scn.cipher_facts(r)
+        me = E.VObj(KEY, 'component')
+        KEYID = z3.Const('KEYID_HEX_OF_THE_COMPONENT_THAT_ENCRYPTS', B)
+        r.hook(KEY, 'fingerprint', scn.const(E.VStr(z=z3.Const('FPR', B), cls='pgpy.types.Fingerprint')))
+        r.hook('pgpy.types.Fingerprint', 'keyid', scn.const(E.VStr(z=KEYID)))
+        ALG = z3.Int('key_algorithm')
+        st.pc.append(z3.Or(*[ALG == m for m in sorted(set(repo.enum_members('pgpy.constants.PubKeyAlgorithm').values()))]))
+        r.hook(KEY, 'key_algorithm', scn.const(E.VInt(ALG, enum='pgpy.constants.PubKeyAlgorithm')))
+        keypkt = E.VObj('pgpy.packet.packets.PubKeyV4', 'keypkt')
+        r.set('component', '_key', keypkt)
+        uid = E.VObj('pgpy.pgp.PGPUID', 'uid')
+        r.hook(KEY, 'userids', scn.const(ex.new_list(st, [uid])))
+        AES = E.VInt(9, enum='pgpy.constants.SymmetricKeyAlgorithm')
+        r.hook('pgpy.pgp.PGPUID', 'selfsig', scn.const(E.VObj('pgpy.pgp.PGPSignature', 'selfsig')))
+        r.hook('pgpy.pgp.PGPSignature', 'cipherprefs', scn.const(ex.new_list(st, [AES])))
+        r.hook('pgpy.pgp.PGPSignature', 'compprefs', scn.const(ex.new_list(st, [])))
+        msg = E.VObj(MSG, 'plain')
+        r.hook(MSG, 'is_compressed', scn.const(E.VBool(False)))
+        r.hook(MSG, 'is_encrypted', lambda ex, st, o, a: [(st, E.VBool(False))])
+        PLAIN = z3.Const('MESSAGE_OCTETS', B)
+        r.hook(MSG, '__bytes__', scn.method_hook(lambda ex, st, o, a: [(st, E.VBytes(PLAIN))]))
+        PK, SE = 'pgpy.packet.packets.PKESessionKeyV3', SEIPD
+        r.hook(PK, '__call__', lambda ex, st, cls, a: [(st, E.VObj(PK, 'pkesk'))])
+        r.hook(SE, '__call__', lambda ex, st, cls, a: [(st, E.VObj(SE, 'seipd'))])
+        r.hook(MSG, '__call__', lambda ex, st, cls, a: [(st, E.VObj(MSG, 'out'))])
+
+        def set_encrypter(ex, st, o, a):
+            st.ghost['encrypter'] = a
+            return [(st, E.VNone())]
+
+        def esk(ex, st, o, a):
+            st.ghost['encrypt_sk_args'] = a
+            st.ghost['encrypter_at_encrypt_sk'] = (st.heap.get(('pkesk', '_encrypter')), st.heap.get(('pkesk', '_pkalg')))
+            return [(st, E.VNone())]
+        r.hook(PK, 'encrypt_sk', scn.method_hook(esk))
+
+        def senc(ex, st, o, a):
+            st.ghost['seipd_args'] = a
+            return [(st, E.VNone())]
+        r.hook(SE, 'encrypt', scn.method_hook(senc))
+
+        def m_or(ex, st, o, a):
+            st.ghost['added'] = st.ghost.get('added', ()) + (a[0],)
+            return [(st, o)]
+        r.hook(MSG, '__or__', scn.method_hook(m_or))
+        SK = z3.Const('SUPPLIED_SESSION_KEY', B)
+        args = [msg] + ([E.VBytes(SK)] if supplied else [])
+        for pi, (s, v) in enumerate(r.call(me, args)):
+            if isinstance(v, E.Raise):
+                r.oblige(s, 'safety(%s)/p%d' % (v.exc.split(':')[0], pi), z3.BoolVal(False), v.where)
+                continue
+            draws = s.ghost.get('rand', ())
+            ea, sa = s.ghost.get('encrypt_sk_args'), s.ghost.get('seipd_args')
+            r.oblige(s, 'one-session-key-packet-and-one-container/p%d' % pi, z3.BoolVal(ea is not None and sa is not None))
+            if ea is None or sa is None:
+                continue
+            if supplied:
+                r.oblige(s, 'uses-the-supplied-session-key-and-draws-none/p%d' % pi, z3.And(z3.BoolVal(len(draws) == 0), ex.seq(ea[2], s) == SK, ex.seq(sa[0], s) == SK))
+            else:
+                r.oblige(s, 'session-key-is-one-fresh-draw-of-the-cipher-key-size/p%d' % pi,
+                         z3.And(z3.BoolVal(len(draws) == 1), z3.And(draws[0][0] == 32, ex.seq(ea[2], s) == draws[0][1], ex.seq(sa[0], s) == draws[0][1]) if len(draws) == 1 else z3.BoolVal(False)))
+            r.oblige(s, 'session-key-encrypted-to-this-component-material-with-the-message-cipher/p%d' % pi, z3.And(z3.BoolVal(ea[0] is keypkt), ex.as_int(ea[1]) == 9))
+            r.oblige(s, 'container-encrypts-the-whole-message-with-the-same-cipher/p%d' % pi, z3.And(ex.as_int(sa[1]) == 9, ex.seq(sa[2], s) == PLAIN))
+            enc, pkalg = s.ghost.get('encrypter_at_encrypt_sk')
+            UNHEX = z3.Function('UNHEXLIFY', B, B)
+            good = isinstance(enc, E.VStr) and enc.z is not None
+            HEX = z3.Function('HEXLIFY', B, B)
+            UP = z3.Function('STR_UPPER', B, B)
+            r.oblige(s, 'recipient-key-id-is-the-key-id-of-this-component/p%d' % pi,
+                     z3.And(z3.BoolVal(good), enc.z == UP(HEX(UNHEX(KEYID))) if good else z3.BoolVal(False)))
+            r.oblige(s, 'recipient-algorithm-is-this-component-algorithm/p%d' % pi, ex.as_int(pkalg) == ALG if pkalg is not None else z3.BoolVal(False))
+            added = s.ghost.get('added', ())
+            r.oblige(s, 'message-carries-the-container-and-the-session-key-packet/p%d' % pi,
+                     z3.BoolVal(len(added) == 2 and {getattr(x, 'ref', None) for x in added} == {'pkesk', 'seipd'} and isinstance(v, E.VObj) and v.ref == 'out'))
+        return r.result()
+    return Scenario(label, KEY + '.encrypt', gen, props=('C03', 'C13', 'C16', 'C18'))
+
+
+def key_decrypt():
+    label = 'C04/PGPKey.decrypt'
+
+    def gen(repo):
+        r = scn.Run(repo, KEY, 'decrypt', label)
+        ex, st = r.ex, r.st
+        me, sub = E.VObj(KEY, 'key'), E.VObj(KEY, 'sub')
+        MYID, SUBID = z3.Ints('my_keyid subkey_keyid')
+        R1, R2 = z3.Ints('recipient1_keyid recipient2_keyid')
+        A1, MYALG = z3.Ints('recipient1_algorithm my_algorithm')
+        st.pc += [MYID != SUBID]
+        FP = 'pgpy.types.Fingerprint'
+        r.hook(KEY, 'fingerprint', lambda ex, st, o, a: [(st, E.VInt({'key': MYID, 'sub': SUBID}[o.ref], enum=FP))])
+        r.hook(FP, 'keyid', lambda ex, st, o, a: [(st, E.VInt(o.z))])
+        r.hook(KEY, 'subkeys', scn.const(E.VDict([(E.VInt(SUBID), sub)])))
+        r.hook(KEY, 'key_algorithm', scn.const(E.VInt(MYALG, enum='pgpy.constants.PubKeyAlgorithm')))
+        r.set('key', '_key', E.VObj('pgpy.packet.packets.PrivKeyV4', 'keypkt'))
+        msg = E.VObj(MSG, 'msg')
+        r.hook(MSG, 'is_encrypted', scn.const(E.VBool(True)))
+        PKC, SKC = 'pgpy.packet.packets.PKESessionKeyV3', 'pgpy.packet.packets.SKESessionKeyV4'
+        skesk, pk1, pk2 = E.VObj(SKC, 'skesk'), E.VObj(PKC, 'pk1'), E.VObj(PKC, 'pk2')
+        # a passphrase session-key packet first, then two public-key session-key packets (any order of kinds must work)
+        r.set('msg', '_sessionkeys', ex.new_list(st, [skesk, pk1, pk2]))
+        r.hook(MSG, 'encrypters', scn.const(E.VSet([E.VInt(R1), E.VInt(R2)])))
+        r.hook(PKC, 'pkalg', lambda ex, st, o, a: [(st, E.VInt(A1 if o.ref == 'pk1' else MYALG, enum='pgpy.constants.PubKeyAlgorithm'))])
+        r.hook(PKC, 'encrypter', lambda ex, st, o, a: [(st, E.VInt(R1 if o.ref == 'pk1' else R2))])
+        container = E.VObj(SEIPD, 'container')
+        r.hook(MSG, 'message', scn.const(container))
+        SKEY = z3.Const('SESSION_KEY', B)
+
+        def dsk(ex, st, o, a):
+            st.ghost['decrypt_sk'] = (o, a)
+            return [(st, E.VTuple([E.VInt(9, enum='pgpy.constants.SymmetricKeyAlgorithm'), E.VBytes(SKEY)]))]
+        r.hook(PKC, 'decrypt_sk', scn.method_hook(dsk))
+        PT = z3.Const('DECRYPTED_PACKETS', B)
+
+        def cdec(ex, st, o, a):
+            st.ghost['container_decrypt'] = a
+            return [(st, ex.new_buf(st, PT))]
+        r.hook(SEIPD, 'decrypt', scn.method_hook(cdec))
+        r.hook(MSG, '__call__', lambda ex, st, cls, a: [(st, E.VObj(MSG, 'decmsg'))])
+
+        def parse(ex, st, o, a):
+            st.ghost['parsed'] = (o, a)
+            return [(st, E.VNone())]
+        r.hook(MSG, 'parse', scn.method_hook(parse))
+        SUBRES = E.VObj(MSG, 'result-of-subkey')
+
+        def subdec(ex, st, o, a):
+            st.ghost['delegated'] = (o, a)
+            return [(st, SUBRES)]
+        r.hook(KEY, 'decrypt', scn.method_hook(subdec))
+        for pi, (s, v) in enumerate(r.call(me, [msg])):
+            mine = z3.Or(R1 == MYID, R2 == MYID)
+            viasub = z3.And(z3.Not(mine), z3.Or(R1 == SUBID, R2 == SUBID))
+            if isinstance(v, E.Raise):
+                exc = v.exc.split(':')[0]
+                if exc == 'PGPError':
+                    r.oblige(s, 'refuses-exactly-when-neither-this-key-nor-a-subkey-is-a-recipient/p%d' % pi, z3.And(z3.Not(mine), z3.Not(viasub)), v.where)
+                elif exc == 'StopIteration':
+                    # addressed to this key id but with another public-key algorithm: no usable session-key packet
+                    r.oblige(s, 'no-matching-packet-only-if-none-has-this-id-and-algorithm/p%d' % pi,
+                             z3.Not(z3.Or(z3.And(R1 == MYID, A1 == MYALG), R2 == MYID)), v.where)
+                else:
+                    r.oblige(s, 'safety(%s)/p%d' % (exc, pi), z3.BoolVal(False), v.where)
+                continue
+            dg = s.ghost.get('delegated')
+            if dg is not None:
+                r.oblige(s, 'delegates-to-the-addressed-subkey-only-when-this-key-is-not-a-recipient/p%d' % pi, z3.And(viasub, z3.BoolVal(dg[0] is sub and dg[1][0] is msg and v is SUBRES)))
+                continue
+            ds = s.ghost.get('decrypt_sk')
+            r.oblige(s, 'this-key-is-a-recipient/p%d' % pi, mine)
+            r.oblige(s, 'uses-a-public-key-session-key-packet/p%d' % pi, z3.BoolVal(ds is not None and ds[0].ref in ('pk1', 'pk2')))
+            if ds is None:
+                continue
+            chosen = ds[0].ref
+            r.oblige(s, 'chosen-packet-names-this-key-and-its-algorithm/p%d' % pi,
+                     z3.And(R1 == MYID, A1 == MYALG) if chosen == 'pk1' else (R2 == MYID))
+            r.oblige(s, 'session-key-recovered-with-this-key-material/p%d' % pi, z3.BoolVal(ds[1][0] is s.heap[('key', '_key')]))
+            cd = s.ghost.get('container_decrypt')
+            r.oblige(s, 'container-decrypted-with-the-recovered-key-and-cipher/p%d' % pi,
+                     z3.And(z3.BoolVal(cd is not None), z3.And(ex.seq(cd[0], s) == SKEY, ex.as_int(cd[1]) == 9) if cd is not None else z3.BoolVal(False)))
+            pa = s.ghost.get('parsed')
+            r.oblige(s, 'result-is-parsed-from-exactly-the-decrypted-octets/p%d' % pi,
+                     z3.And(z3.BoolVal(pa is not None and pa[0].ref == 'decmsg' and isinstance(v, E.VObj) and v.ref == 'decmsg'),
+                            ex.seq(pa[1][0], s) == PT if pa is not None else z3.BoolVal(False)))
+        return r.result()
+    return Scenario(label, KEY + '.decrypt', gen, props=('C04', 'C03', 'C16'))
+
+
+def message_decrypt():
+    label = 'C04/PGPMessage.decrypt'
+
+    def gen(repo):
+        r = scn.Run(repo, MSG, 'decrypt', label)
+        ex, st = r.ex, r.st
+        me = E.VObj(MSG, 'msg')
+        r.hook(MSG, 'is_encrypted', scn.const(E.VBool(True)))
+        PKC, SKC = 'pgpy.packet.packets.PKESessionKeyV3', 'pgpy.packet.packets.SKESessionKeyV4'
+        sk1, sk2, pk = E.VObj(SKC, 'sk1'), E.VObj(SKC, 'sk2'), E.VObj(PKC, 'pk')
+        r.set('msg', '_sessionkeys', ex.new_list(st, [pk, sk1, sk2]))
+        container = E.VObj(SEIPD, 'container')
+        r.hook(MSG, 'message', scn.const(container))
+        okk = {n: z3.Bool('session_key_packet_%s_opens' % n) for n in ('sk1', 'sk2')}
+        okc = {n: z3.Bool('container_checks_pass_with_key_of_%s' % n) for n in ('sk1', 'sk2')}
+        okp = {n: z3.Bool('decrypted_octets_parse_%s' % n) for n in ('sk1', 'sk2')}
+        KEYS = {n: z3.Const('KEY_FROM_' + n, B) for n in ('sk1', 'sk2')}
+        PTS = {n: z3.Const('PLAINTEXT_VIA_' + n, B) for n in ('sk1', 'sk2')}
+
+        def dsk(ex, st, o, a):
+            s2 = st.clone()
+            st.pc.append(okk[o.ref])
+            s2.pc.append(z3.Not(okk[o.ref]))
+            st.ghost['cur'] = o.ref
+            return [(st, E.VTuple([E.VInt(9, enum='pgpy.constants.SymmetricKeyAlgorithm'), E.VBytes(KEYS[o.ref])])), (s2, E.Raise('PGPDecryptionError', 0))]
+        r.hook(SKC, 'decrypt_sk', scn.method_hook(dsk))
+
+        def cdec(ex, st, o, a):
+            cur = st.ghost['cur']
+            s2 = st.clone()
+            st.pc.append(okc[cur])
+            s2.pc.append(z3.Not(okc[cur]))
+            st.ghost['cdec_key'] = a[0]
+            return [(st, ex.new_buf(st, PTS[cur])), (s2, E.Raise('PGPDecryptionError', 0))]
+        r.hook(SEIPD, 'decrypt', scn.method_hook(cdec))
+        r.hook(MSG, '__call__', lambda ex, st, cls, a: [(st, E.VObj(MSG, E.fresh('decmsg')))])
+
+        def parse(ex, st, o, a):
+            cur = st.ghost['cur']
+            s2 = st.clone()
+            st.pc.append(okp[cur])
+            s2.pc.append(z3.Not(okp[cur]))
+            st.ghost['parsed'] = (o, a, cur)
+            return [(st, E.VNone()), (s2, E.Raise('ValueError', 0))]
+        r.hook(MSG, 'parse', scn.method_hook(parse))
+        good = {n: z3.And(okk[n], okc[n], okp[n]) for n in ('sk1', 'sk2')}
+        for pi, (s, v) in enumerate(r.call(me, [E.VStr(z=z3.Const('PASSPHRASE', B))])):
+            if isinstance(v, E.Raise):
+                r.oblige(s, 'every-failure-is-PGPDecryptionError/p%d' % pi, z3.BoolVal(v.exc.split(':')[0] == 'PGPDecryptionError'), v.where)
+                r.oblige(s, 'fails-only-if-no-passphrase-packet-opens-and-checks/p%d' % pi, z3.Not(z3.Or(good['sk1'], good['sk2'])))
+                continue
+            pa = s.ghost.get('parsed')
+            r.oblige(s, 'result-comes-from-a-packet-that-opened-checked-and-parsed/p%d' % pi,
+                     z3.And(z3.BoolVal(pa is not None and isinstance(v, E.VObj) and v.ref is pa[0].ref), good[pa[2]] if pa is not None else z3.BoolVal(False)))
+            if pa is not None:
+                r.oblige(s, 'parsed-from-exactly-the-octets-decrypted-with-that-packet-key/p%d' % pi,
+                         z3.And(ex.seq(pa[1][0], s) == PTS[pa[2]], ex.seq(s.ghost['cdec_key'], s) == KEYS[pa[2]]))
+        return r.result()
+    return Scenario(label, MSG + '.decrypt', gen, props=('C04', 'C03'))
+
+
+_base_scenarios = scenarios
+
+
+def scenarios():
+    return _base_scenarios() + [key_encrypt(False), key_encrypt(True), key_decrypt(), message_decrypt()]
